@@ -193,6 +193,20 @@ pub fn run(ctx: &mut Ctx) -> Report {
 	// such a key — generated, or loaded through each entry point — verifies under OpenSSL all the same
 	#[cfg(feature = "aws")]
 	{
+		// RSA keys as the aws-lc-rs build generates them for each algorithm and an explicit size:
+		// what they sign verifies under the algorithm they name, here, with ring and with OpenSSL
+		for alg in [&PKCS_RSA_SHA256, &PKCS_RSA_SHA384, &PKCS_RSA_SHA512] {
+			for (how, r) in [("generate_for", KeyPair::generate_for(alg)), ("generate_rsa_for(2048)", KeyPair::generate_rsa_for(alg, RsaKeySize::_2048))] {
+				let Ok(k) = r else { continue };
+				let mut p = PCert::default_like();
+				p.serial = Some(vec![0x26]);
+				p.kid = Kid::Pre(vec![0x27; 20]);
+				s.rep.case(&format!("rsa {} {}", how, alg_name(alg)), true);
+				if let Ok(c) = p.real().unwrap().self_signed(&k) {
+					verify_everywhere(&mut s, "cert", c.der(), &k);
+				}
+			}
+		}
 		let k0 = KeyPair::generate_for(&PKCS_ECDSA_P521_SHA512).unwrap();
 		let der = k0.serialize_der();
 		let mut ks: Vec<(String, KeyPair)> = vec![("generated".into(), k0)];
